@@ -84,7 +84,19 @@ def main():
     job = json.load(open(sys.argv[1]))
     d = QapDriver(job)
     prog = job["program"]
+    mid = []
     for st in prog["steps"]:
+        if st.get("op") == "prove":
+            # an explicit proving step in the middle of the program
+            e0 = io.StringIO()
+            try:
+                with contextlib.redirect_stderr(e0), contextlib.redirect_stdout(io.StringIO()):
+                    d.be.prove()
+                mid.append("")
+            except Exception as e:
+                mid.append("%s: %s" % (type(e).__name__, e))
+            d.regs.append(None)
+            continue
         d.step(st)
     err = io.StringIO()
     proved, perr = True, ""
@@ -95,7 +107,7 @@ def main():
         proved, perr = False, "%s: %s" % (type(e).__name__, e)
     vals = {"values": [{"ctx": c, "v": int(v)} for c, v in []]}
     json.dump({"id": prog["id"], "raised": d.raised, "err": getattr(d, "err", ""), "proved": proved, "prove_err": perr, "stderr": err.getvalue(),
-               "calls": d.calls, "traced": d.traced, "p": str(d.be.get_modulus())}, open(sys.argv[2], "w"))
+               "calls": d.calls, "traced": d.traced, "p": str(d.be.get_modulus()), "mid_prove_err": mid}, open(sys.argv[2], "w"))
 
 
 if __name__ == "__main__":
